@@ -123,6 +123,18 @@ func (s *skelTr) exprEvents(e ast.Node, write bool) []string {
 					return
 				}
 			}
+			if id, ok := x.Fun.(*ast.Ident); ok {
+				// a call of another analysed function of the same file (it takes a lock itself)
+				for _, t := range skelTargets {
+					if t.file == s.t.file && t.recv == "" && t.name == id.Name {
+						for _, a := range x.Args {
+							walk(a, false)
+						}
+						out = append(out, "KCall "+q(id.Name))
+						return
+					}
+				}
+			}
 			walk(x.Fun, false)
 			for _, a := range x.Args {
 				walk(a, false)
